@@ -209,6 +209,38 @@ pub axiom fn ax_alphabetic(c: char)
     ensures (('a' <= c && c <= 'z') || ('A' <= c && c <= 'Z')) ==> uni_alphabetic(c),
         (c as u32) < 128 && uni_alphabetic(c) ==> (('a' <= c && c <= 'z') || ('A' <= c && c <= 'Z'));
 
+// ------------------------------------------------------------------ std integer parsing (used by interpret_number)
+#[verifier::external_type_specification] #[verifier::external_body] pub struct ExParseIntError(core::num::ParseIntError);
+#[verifier::external_trait_specification]
+pub trait ExFromStr: Sized { type ExternalTraitSpecificationFor: core::str::FromStr; type Err; fn from_str(s: &str) -> Result<Self, Self::Err>; }
+/// value of `[+-]?[0-9]+` as Rust's integer FromStr reads it (None: empty / lone sign / bad digit); uninterpreted
+pub uninterp spec fn dec_val(s: Seq<char>) -> Option<int>;
+/// value of a non-empty digit string in the given radix as from_str_radix reads it; uninterpreted
+pub uninterp spec fn radix_val(s: Seq<char>, radix: u32) -> Option<int>;
+/// the text a std string pattern (&str or char) stands for
+pub uninterp spec fn std_pat_seq<P>(p: P) -> Seq<char>;
+pub broadcast axiom fn ax_std_pat_str(p: &str) ensures #[trigger] std_pat_seq::<&str>(p) == p@;
+pub broadcast axiom fn ax_std_pat_char(p: char) ensures #[trigger] std_pat_seq::<char>(p) == seq![p];
+pub open spec fn has_prefix(s: Seq<char>, p: Seq<char>) -> bool { p.len() <= s.len() && s.subrange(0, p.len() as int) == p }
+pub assume_specification<'a, P: core::str::pattern::Pattern> [str::strip_prefix::<P>] (s: &'a str, prefix: P) -> (r: Option<&'a str>)
+    ensures match r {
+        Some(t) => has_prefix(s@, std_pat_seq(prefix)) && t@ == s@.subrange(std_pat_seq(prefix).len() as int, s@.len() as int),
+        None => !has_prefix(s@, std_pat_seq(prefix)),
+    };
+pub assume_specification<'a, P: core::str::pattern::Pattern> [str::starts_with::<P>] (s: &'a str, prefix: P) -> (r: bool)
+    ensures r == has_prefix(s@, std_pat_seq(prefix));
+pub assume_specification [u64::from_str_radix] (s: &str, radix: u32) -> (r: Result<u64, core::num::ParseIntError>)
+    ensures r.is_ok() == (radix_val(s@, radix) is Some && 0 <= radix_val(s@, radix).unwrap() <= u64::MAX),
+        r.is_ok() ==> r.unwrap() == radix_val(s@, radix).unwrap();
+pub assume_specification [<i64 as core::str::FromStr>::from_str] (s: &str) -> (r: Result<i64, core::num::ParseIntError>)
+    ensures r.is_ok() == (dec_val(s@) is Some && i64::MIN <= dec_val(s@).unwrap() <= i64::MAX),
+        r.is_ok() ==> r.unwrap() == dec_val(s@).unwrap();
+pub assume_specification [<u64 as core::str::FromStr>::from_str] (s: &str) -> (r: Result<u64, core::num::ParseIntError>)
+    ensures r.is_ok() == (dec_val(s@) is Some && 0 <= dec_val(s@).unwrap() <= u64::MAX),
+        r.is_ok() ==> r.unwrap() == dec_val(s@).unwrap();
+pub assume_specification<F: core::str::FromStr> [str::parse::<F>] (s: &str) -> (r: Result<F, F::Err>)
+    ensures call_ensures(F::from_str, (s,), r);
+
 // ------------------------------------------------------------------ character classes of the TableGen reference
 pub open spec fn is_ident_start(c: char) -> bool { ('a' <= c && c <= 'z') || ('A' <= c && c <= 'Z') || c == '_' }
 pub open spec fn is_ident_cont(c: char) -> bool { is_ident_start(c) || ('0' <= c && c <= '9') }
